@@ -308,4 +308,73 @@ theorem sizedbuffer_safe (stream buf rest : Bytes) (h : sizedBufferLoad stream =
   | [_, _], h => simp [rd32] at h
   | [_, _, _], h => simp [rd32] at h
 
+/-! ### every sequence of byte strings -/
+
+/-- `TPM_Process` over a sequence of commands: the responses (in order) and the final failure flag.  The ordinal
+    bodies may differ from command to command (`bodies i` is what the ordinals would do at step `i`: they depend
+    on the TPM state, which is opaque here). -/
+def processAll (env : Env) : (failed : Bool) → List ((Hdr → BodyOut) × Bytes) → List Bytes × Bool
+  | failed, [] => ([], failed)
+  | failed, (body, cmd) :: rest =>
+    let r := process env failed body cmd
+    let (rs, f) := processAll env r.2.1 rest
+    (r.1 :: rs, f)
+
+/-- **for every sequence of byte strings** submitted as commands — whatever the ordinals do in between — each
+    response is a well-formed TPM 1.2 response for its request -/
+theorem history_wellformed (env : Env) (hb : 10 ≤ env.bufMax) (hmax : env.bufMax < 4294967296)
+    (hpre : env.pre < 4294967296) (cmds : List ((Hdr → BodyOut) × Bytes)) :
+    ∀ (failed : Bool), (∀ c ∈ cmds, ∀ h, (c.1 h).rc < 4294967296) →
+    ∀ p ∈ cmds.zip (processAll env failed cmds).1, wellFormed env.bufMax (reqTag p.1.2) p.2 = true := by
+  induction cmds with
+  | nil => intro _ _ p hp; simp [processAll] at hp
+  | cons c rest ih =>
+    intro failed hall p hp
+    obtain ⟨body, cmd⟩ := c
+    simp only [processAll, List.zip_cons_cons, List.mem_cons] at hp
+    rcases hp with hp | hp
+    · subst hp
+      exact tpm12_frame_wellformed env failed body cmd hb hmax hpre (hall (body, cmd) (by simp))
+    · exact ih _ (fun c' hc' => hall c' (by simp [hc'])) p hp
+
+/-- one response per command, in order -/
+theorem history_length (env : Env) (cmds : List ((Hdr → BodyOut) × Bytes)) :
+    ∀ (failed : Bool), (processAll env failed cmds).1.length = cmds.length := by
+  induction cmds with
+  | nil => intro _; rfl
+  | cons c rest ih => intro failed; obtain ⟨body, cmd⟩ := c; simp [processAll, ih]
+
+/-- **no sequence of byte strings drives the TPM into its self-test-failed shutdown state through the framing
+    layer**: unless preprocessing or an ordinal body itself reports `TPM_FAIL`, the flag after the whole history is
+    the flag before it -/
+theorem history_no_shutdown (env : Env) (hpre : env.pre ≠ TPM_FAIL) (cmds : List ((Hdr → BodyOut) × Bytes)) :
+    ∀ (failed : Bool), (∀ c ∈ cmds, ∀ h, (c.1 h).rc ≠ TPM_FAIL) → (processAll env failed cmds).2 = failed := by
+  induction cmds with
+  | nil => intro _ _; rfl
+  | cons c rest ih =>
+    intro failed hall
+    obtain ⟨body, cmd⟩ := c
+    simp only [processAll]
+    rw [ih _ (fun c' hc' => hall c' (by simp [hc']))]
+    exact no_shutdown_from_input env failed body cmd hpre (hall (body, cmd) (by simp))
+
+/-- the failed state is never left by processing commands (only `TPM_MainInit` does) -/
+theorem failed_stays (env : Env) (body : Hdr → BodyOut) (cmd : Bytes) : (process env true body cmd).2.1 = true := by
+  unfold process
+  cases parseHeader cmd with
+  | none => simp
+  | some h =>
+    simp only
+    split
+    · simp
+    · split
+      · rfl
+      · split
+        · rfl
+        · simp
+
+example : (processAll { bufMax := 4096 } false [(fun _ => { rc := 0, out := [] }, [0, 0xC1, 0, 0])]).1 =
+    [errorResponse TPM_BAD_PARAM_SIZE] := by
+  simp [processAll, process, parseHeader, rd16, rd32]
+
 end TpmVerif.Props.C18
